@@ -98,10 +98,12 @@ impl OperationControl for Repeat {
             // code, i.e. GreedyFixed, ReluctantFixed, UnambiguousRepeat),
             // because each of these subclasses overrides matches_iter anyway,
             // so this code can never be reached.
+            let mut registered = None;
             if self.min == 0 && !matcher.is_duplicate_zero_length_match(self, position) {
                 // add a match at the current position if zero occurrences are allowed
                 iterators.push(Box::new(std::iter::once(position)));
                 positions.push(p);
+                registered = Some((self as *const Repeat, position));
             }
             for _i in 0..bound {
                 #[cfg(regexml_verif)]
@@ -112,6 +114,9 @@ impl OperationControl for Repeat {
                     iterators.push(it);
                     positions.push(p);
                 } else if iterators.is_empty() {
+                    if let Some((repeat, position)) = registered {
+                        matcher.forget_zero_length_match(repeat, position);
+                    }
                     return Box::new(std::iter::empty());
                 } else {
                     break;
@@ -127,6 +132,7 @@ impl OperationControl for Repeat {
                     positions,
                     bound,
                     self.min,
+                    registered,
                 ),
             )))
         } else {
@@ -174,6 +180,20 @@ struct GreedyRepeatIterator<'a> {
     iterators: Vec<Box<dyn Iterator<Item = usize> + 'a>>,
     positions: Vec<usize>,
     bound: usize,
+    // the zero-length match this iterator registered in the matcher's history
+    registered: Option<(*const Repeat, usize)>,
+}
+
+// The history of zero-length matches guards an enclosing repetition against
+// going round for ever at one position. That only concerns attempts made
+// while this iterator is still part of the current path; once it is abandoned
+// the same repeat may match zero times at this position on another path.
+impl Drop for GreedyRepeatIterator<'_> {
+    fn drop(&mut self) {
+        if let Some((repeat, position)) = self.registered {
+            self.matcher.forget_zero_length_match(repeat, position);
+        }
+    }
 }
 
 impl<'a> GreedyRepeatIterator<'a> {
@@ -184,6 +204,7 @@ impl<'a> GreedyRepeatIterator<'a> {
         positions: Vec<usize>,
         bound: usize,
         min: usize,
+        registered: Option<(*const Repeat, usize)>,
     ) -> Self {
         Self {
             primed: true,
@@ -193,6 +214,7 @@ impl<'a> GreedyRepeatIterator<'a> {
             iterators,
             positions,
             bound,
+            registered,
         }
     }
 }
